@@ -45,9 +45,10 @@ VARIABLES
   ret,        \* outcome of the last finished call: [call, kind, typ]
   ncalls, nfaults,
   raised,     \* set of exception types raised inside sub-environments so far
-  clean       \* no fault / timeout / misuse error has happened yet (data equivalence is only claimed then)
+  clean,      \* no fault / timeout / misuse error has happened yet (data equivalence is only claimed then)
+  wedged      \* a *_wait failed on a dead worker's pipe and left _state WAITING_* with replies consumed
 
-vars == <<pstate, closed, ppipe, down, up, errq, alive, envst, shm, refst, pc, ret, ncalls, nfaults, raised, clean>>
+vars == <<pstate, closed, ppipe, down, up, errq, alive, envst, shm, refst, pc, ret, ncalls, nfaults, raised, clean, wedged>>
 
 Cmd(name)   == [cmd |-> name]
 Reply(n, k) == [ok |-> k, cmd |-> n]
@@ -63,7 +64,7 @@ Init ==
   /\ envst = [i \in W |-> [ep |-> 0, t |-> 0]]
   /\ shm = [i \in W |-> [ep |-> 0, t |-> 0]]
   /\ refst = [i \in W |-> [ep |-> 0, t |-> 0]]
-  /\ pc = Idle /\ ret = Ok("init") /\ ncalls = 0 /\ nfaults = 0 /\ raised = {} /\ clean = TRUE
+  /\ pc = Idle /\ ret = Ok("init") /\ ncalls = 0 /\ nfaults = 0 /\ raised = {} /\ clean = TRUE /\ wedged = FALSE
 
 --------------------------------------------------------------------------------
 (* Sub-environment semantics: reset starts a new episode; step advances; when   *)
@@ -82,7 +83,7 @@ Exec(i) ==
      /\ envst' = [envst EXCEPT ![i] = IF c = "reset" THEN EnvReset(@) ELSE IF c = "step" THEN EnvStep(@, i) ELSE @]
      /\ shm' = [shm EXCEPT ![i] = IF c \in {"reset", "step"} THEN envst'[i] ELSE @]     \* writes only its own slot
      /\ alive' = [alive EXCEPT ![i] = (c # "close")]                                     \* "close": reply, then exit
-  /\ UNCHANGED <<pstate, closed, ppipe, errq, refst, pc, ret, ncalls, nfaults, raised, clean>>
+  /\ UNCHANGED <<pstate, closed, ppipe, errq, refst, pc, ret, ncalls, nfaults, raised, clean, wedged>>
 
 Raise(i, typ) ==
   /\ "raise" \in FaultKinds /\ nfaults < MaxFaults
@@ -91,7 +92,7 @@ Raise(i, typ) ==
   /\ errq' = Append(errq, [w |-> i, typ |-> typ])
   /\ up' = [up EXCEPT ![i] = Append(@, Reply(Head(down[i]).cmd, FALSE))]
   /\ alive' = [alive EXCEPT ![i] = FALSE]
-  /\ nfaults' = nfaults + 1 /\ raised' = raised \cup {typ} /\ clean' = FALSE
+  /\ nfaults' = nfaults + 1 /\ raised' = raised \cup {typ} /\ clean' = FALSE /\ UNCHANGED wedged
   /\ UNCHANGED <<pstate, closed, ppipe, envst, shm, refst, pc, ret, ncalls>>
 
 Kill(i) ==
@@ -99,14 +100,14 @@ Kill(i) ==
   /\ alive[i]
   /\ alive' = [alive EXCEPT ![i] = FALSE]
   /\ down' = [down EXCEPT ![i] = <<>>]
-  /\ nfaults' = nfaults + 1 /\ clean' = FALSE
+  /\ nfaults' = nfaults + 1 /\ clean' = FALSE /\ UNCHANGED wedged
   /\ UNCHANGED <<pstate, closed, ppipe, up, errq, envst, shm, refst, pc, ret, ncalls, raised>>
 
 \* the parent closed its end of the pipe: the worker's blocking recv gets EOF and the process exits
 WorkerEOF(i) ==
   /\ alive[i] /\ ppipe[i] = "none" /\ down[i] = <<>>
   /\ alive' = [alive EXCEPT ![i] = FALSE]
-  /\ UNCHANGED <<pstate, closed, ppipe, down, up, errq, envst, shm, refst, pc, ret, ncalls, nfaults, raised, clean>>
+  /\ UNCHANGED <<pstate, closed, ppipe, down, up, errq, envst, shm, refst, pc, ret, ncalls, nfaults, raised, clean, wedged>>
 
 --------------------------------------------------------------------------------
 (* Parent-side helpers (pure) *)
@@ -150,7 +151,7 @@ AsyncOf(c) == CASE c = "reset_async" -> "reset" [] c = "step_async" -> "step" []
 \* A wait that failed on a dead worker's pipe (EOFError / AttributeError) leaves _state WAITING_* with some
 \* replies already consumed.  Re-issuing that wait blocks for ever on a healthy worker's pipe (known
 \* finding F-C13-2).  Under the assumption "no_retry_when_wedged" the client does not do that.
-Wedged == ret.kind = "exc" /\ ret.typ \in {"EOFError", "AttributeError"} /\ WaitOf(ret.call) # "" /\ pstate = WaitOf(ret.call)
+Wedged == wedged
 
 Begin(c, to) ==
   /\ pc = Idle /\ ncalls < MaxCalls
@@ -165,10 +166,13 @@ Begin(c, to) ==
               ELSE IF c = "reset_async" THEN [i \in W |-> EnvReset(refst[i])]
               ELSE IF c = "step_async" THEN [i \in W |-> EnvStep(refst[i], i)]
               ELSE refst
-  /\ UNCHANGED <<pstate, closed, ppipe, down, up, errq, alive, envst, shm, ret, nfaults, raised, clean>>
+  /\ UNCHANGED <<pstate, closed, ppipe, down, up, errq, alive, envst, shm, ret, nfaults, raised, clean, wedged>>
 
 Return(r) == /\ pc' = Idle /\ ret' = r
              /\ clean' = (clean /\ r.kind = "ok")
+             /\ wedged' = IF r.kind = "exc" /\ r.typ \in {"EOFError", "AttributeError"} /\ WaitOf(r.call) # "" THEN TRUE
+                           ELSE IF WaitOf(r.call) # "" /\ ~closed /\ pstate = WaitOf(r.call) THEN FALSE   \* the wait ran: _state back to DEFAULT
+                           ELSE wedged
 
 \* *_async
 FinishAsync ==
@@ -215,7 +219,7 @@ FinishSetAttrSend ==
      ELSE IF pstate # "default" THEN Return(Exc("set_attr", "AlreadyPendingCallError")) /\ UNCHANGED down
      ELSE IF SendFail # 0
        THEN down' = DownAfterSend("setattr", SendFail - 1) /\ Return(Exc("set_attr", SendErrTyp(SendFail)))
-       ELSE down' = DownAfterSend("setattr", NW) /\ pc' = [pc EXCEPT !.phase = "recv"] /\ UNCHANGED <<ret, clean>>
+       ELSE down' = DownAfterSend("setattr", NW) /\ pc' = [pc EXCEPT !.phase = "recv"] /\ UNCHANGED <<ret, clean, wedged>>
   /\ UNCHANGED <<pstate, closed, ppipe, up, errq, alive, envst, shm, refst, ncalls, nfaults, raised>>
 
 FinishSetAttrRecv ==
@@ -239,10 +243,10 @@ CloseWaitPending ==
   /\ IF closed THEN Return(Ok("close")) /\ UNCHANGED <<pstate, ppipe, up, errq>>
      ELSE IF pstate = "default"
             THEN /\ pc' = [pc EXCEPT !.phase = IF pc.to = "terminate" THEN "terminate" ELSE "send"]
-                 /\ UNCHANGED <<pstate, ppipe, up, errq, ret, clean>>
+                 /\ UNCHANGED <<pstate, ppipe, up, errq, ret, clean, wedged>>
      ELSE WaitBody("close", IF \E i \in W : ~alive[i] THEN "finite" ELSE pc.to,
-                   pc' = [pc EXCEPT !.phase = IF pc.to = "terminate" THEN "terminate" ELSE "send"] /\ UNCHANGED <<ret, clean>>,
-                   LAMBDA t : pc' = [pc EXCEPT !.phase = "terminate"] /\ UNCHANGED <<ret, clean>>)
+                   pc' = [pc EXCEPT !.phase = IF pc.to = "terminate" THEN "terminate" ELSE "send"] /\ UNCHANGED <<ret, clean, wedged>>,
+                   LAMBDA t : pc' = [pc EXCEPT !.phase = "terminate"] /\ UNCHANGED <<ret, clean, wedged>>)
   /\ UNCHANGED <<closed, down, alive, envst, shm, refst, ncalls, nfaults, raised>>
 
 \* phase 2a: terminate every live process
@@ -250,13 +254,13 @@ CloseTerminate ==
   /\ pc # Idle /\ pc.call = "close" /\ pc.phase = "terminate"
   /\ alive' = [i \in W |-> FALSE] /\ down' = [i \in W |-> <<>>]
   /\ pc' = [pc EXCEPT !.phase = "join"]
-  /\ UNCHANGED <<pstate, closed, ppipe, up, errq, envst, shm, refst, ret, ncalls, nfaults, raised, clean>>
+  /\ UNCHANGED <<pstate, closed, ppipe, up, errq, envst, shm, refst, ret, ncalls, nfaults, raised, clean, wedged>>
 
 \* phase 2b: send ("close", None) to every pipe that is not None; a dead worker's pipe is skipped
 CloseSend ==
   /\ pc # Idle /\ pc.call = "close" /\ pc.phase = "send"
   /\ down' = [i \in W |-> IF ppipe[i] = "open" /\ alive[i] THEN Append(down[i], Cmd("close")) ELSE down[i]]
-  /\ pc' = [pc EXCEPT !.phase = "recv"] /\ UNCHANGED <<ret, clean>>
+  /\ pc' = [pc EXCEPT !.phase = "recv"] /\ UNCHANGED <<ret, clean, wedged>>
   /\ UNCHANGED <<pstate, closed, ppipe, up, errq, alive, envst, shm, refst, ncalls, nfaults, raised>>
 
 \* phase 3: one recv per open pipe (whatever reply is first in the pipe); EOF from a dead worker is skipped
@@ -264,7 +268,7 @@ CloseRecv ==
   /\ pc # Idle /\ pc.call = "close" /\ pc.phase = "recv"
   /\ \A i \in W : ppipe[i] = "open" => (up[i] # <<>> \/ ~alive[i])          \* otherwise recv blocks
   /\ up' = [i \in W |-> IF ppipe[i] = "open" /\ up[i] # <<>> THEN Tail(up[i]) ELSE up[i]]
-  /\ pc' = [pc EXCEPT !.phase = "join"] /\ UNCHANGED <<ret, clean>>
+  /\ pc' = [pc EXCEPT !.phase = "join"] /\ UNCHANGED <<ret, clean, wedged>>
   /\ UNCHANGED <<pstate, closed, ppipe, down, errq, alive, envst, shm, refst, ncalls, nfaults, raised>>
 
 \* phase 4: close every pipe, join every process (blocks until all have exited)
@@ -272,7 +276,7 @@ CloseJoin ==
   /\ pc # Idle /\ pc.call = "close" /\ pc.phase = "join"
   /\ IF \E i \in W : ppipe[i] = "open"
        THEN /\ ppipe' = [i \in W |-> "none"]                                  \* pipe.close(): workers blocked in recv see EOF
-            /\ UNCHANGED <<closed, pc, ret, clean>>
+            /\ UNCHANGED <<closed, pc, ret, clean, wedged>>
        ELSE /\ \A i \in W : ~alive[i]                                           \* process.join()
             /\ closed' = TRUE /\ Return(Ok("close")) /\ UNCHANGED ppipe
   /\ UNCHANGED <<pstate, down, up, errq, alive, envst, shm, refst, ncalls, nfaults, raised>>
